@@ -15,6 +15,11 @@
 //	    and function calls (native) and arrays / objects / call strings (JSON):
 //	    evaluating the parts returned by hcl.ExprList / ExprMap / ExprCall
 //	    reproduces the elements / attributes / call result of the whole;
+//	(c') fam "jtree": nested JSON values used as expressions, with property
+//	    names and strings that are special elsewhere in the JSON syntax ("//",
+//	    "", "/", "dynamic", template sequences, duplicates) at every nesting
+//	    level: the static decomposition all the way down (ExprMap / ExprList),
+//	    evaluated leaf by leaf, rebuilds the value of the whole at every node;
 //	(d) fam "type": cty types: typeexpr.TypeString parses back through
 //	    typeexpr.TypeConstraint to the identical type, natively and as a JSON
 //	    string.
@@ -30,7 +35,7 @@ import (
 
 // Data is sufficient to re-run one case. Which fields are used depends on Fam.
 type Data struct {
-	Fam string `json:"fam"` // eval | parse | list | map | call | type
+	Fam string `json:"fam"` // eval | parse | list | map | call | jtree | type
 
 	// eval, parse: a traversal-shaped text = Root followed by Steps, rendered
 	// with layout Rend; or (parse only) a hand-written text Raw.
@@ -50,6 +55,11 @@ type Data struct {
 
 	// type: the type in the check's own notation (see types.go)
 	Type string `json:"type,omitempty"`
+
+	// jtree: a JSON text used as an expression, and how the expression is
+	// obtained (expr | attr | block-attr)
+	JSON string `json:"json,omitempty"`
+	Ctx  string `json:"ctx,omitempty"`
 
 	Text string `json:"text,omitempty"` // informational: the source text
 }
@@ -84,6 +94,8 @@ func judgeFam(d Data) engine.Outcome {
 		return judgeMap(d)
 	case "call":
 		return judgeCall(d)
+	case "jtree":
+		return judgeJTree(d)
 	case "type":
 		return judgeType(d)
 	}
@@ -110,6 +122,9 @@ func gen(tier string, emit func(engine.Case) bool) {
 			return
 		}
 		if !genStatic(n, thorough, emit) {
+			return
+		}
+		if !genJTree(n, thorough, emit) {
 			return
 		}
 	}
@@ -184,6 +199,8 @@ func shrink(c engine.Case) []engine.Case {
 			nd.Layout = 0
 			out = append(out, mkStatic(nd))
 		}
+	case "jtree":
+		return shrinkJTree(d)
 	case "type":
 		t, err := parseTy(d.Type)
 		if err != nil {
@@ -204,8 +221,9 @@ func main() {
 		Rule: "(a) eval: roots {v,w,for,if,true,null} x all sequences of <= 3 (quick) / <= 5 (thorough) steps over {.a .b .0 .1 [0] [1] [\"a\"] [\"b\"] [\"0\"] [2] .zz} x 5 layouts (plain, parenthesised, parenthesised with newlines, top-level newlines, spaced); each text is applied to all 12 scopes (6 value shapes incl. unknown/dynamic and marked, root absent, no variable table, nil context, 3 child/parent arrangements); " +
 			"(b) parse: roots {v,for,if,true,null} x all sequences of <= 3 / <= 4 steps over those 11 plus 15 near-traversal steps ([*] .* [v] [true] [null] [-1] [1.5] template/escaped/empty/non-ASCII string keys, calls, keyword attribute) x 4 layouts (quick: 3-step sequences with roots {v,for,true} and 3 layouts), plus 107 hand-written texts; each through ParseTraversalAbs, ParseExpression+AbsTraversalForExpr and as a JSON string; " +
 			"(c) list/map/call: tuple constructors of <= 3 / <= 4 elements from a 14-expression pool x 3 layouts, object constructors of <= 2 / <= 3 pairs (16 key forms x 7 values) x 3 layouts, calls of 6 function names with <= 3 / <= 4 arguments x 2 layouts (+ final-argument expansion), JSON arrays (12-element pool, 2 layouts), JSON objects (10 key forms x 6 values, 2 layouts), JSON call strings (<= 2 / <= 3 arguments); " +
+			"(c') jtree: JSON value trees = a focus (array of <= 2 / <= 3 elements from a 15-leaf pool incl. \"//\" \"\" \"/\" null and template / traversal / call strings; object of <= 2 / <= 3 properties, 14 names {a // / empty dynamic ${k} x${k} $${k} %{if} kk ${u} ${null} ${nope} ${1}} x 3 values, all name sequences incl. duplicates) under every sequence of <= 1 / <= 2 wrappers (3 array positions, 14 single-property objects, 4 two-property objects with a \"//\" sibling), plus foci of <= 1 member under every sequence of 2 / 3 wrappers; each obtained as json.ParseExpression, as a body attribute (JustAttributes) and as an attribute of a block body that has a real \"//\" comment; every node decomposed with ExprMap/ExprList, every string and property name also through AbsTraversalForExpr/ExprCall; " +
 			"(d) type: every cty type of depth <= 2 over {string,number,bool,any,list,set,map,tuple of <= 2,object of <= 2 attributes named from {a,b-c,é,for,if,null,true}}; depth 3: every depth-2 type under list/set/map/1-tuple/1-attribute object (7 names), all 21 name pairs x pairs from a 13-type reduced set as 2-attribute objects, 2-tuples of every type of depth <= 2 with each of the reduced set in both orders (thorough: every pair of types of depth <= 2; depth 4 likewise over the one-child depth-3 types). " +
-			"Non-trivial = a static view was obtained and compared; distinct = distinct (traversal shape, per-scope value or error) / (accepting parsers, steps) / (value) / (type string) observations.",
+			"Non-trivial = a static view was obtained and compared; distinct = distinct (traversal shape, per-scope value or error) / (accepting parsers, steps) / (value) / (tree shape, value) / (type string) observations.",
 		Assumptions: []string{
 			"go-cty value operations (RawEquals, Type.Equals, conversion, function.Call) are trusted",
 			"evaluation of the whole expression (Expression.Value) is the reference for the static views, as the property states; its own conformance is C01's subject",
